@@ -348,6 +348,14 @@ def check_case(data: dict, lab: Labels) -> None:
     for p, text, res_for_p in zip(pats, texts, results):
         cached, _ = NodeMatcher.from_pattern(text)
         PM._MATCHER_CACHE.pop(text, None)
+        # a failed definition in between (it uses this pattern's capture names, then an unknown class)
+        # must not influence the next compilation
+        caps_ = P.capture_names(p)[:2] or ["zz"]
+        bad = "(LeafA " + " ".join(f"@v -> {c}" for c in caps_) + " @w=(NoSuchClassAnywhere))"
+        okb, _ = PM.validate_pattern(bad)
+        require(not okb, "illformed-pattern-accepted", bad)
+        nb, _ = NodeMatcher.from_pattern(bad)
+        require(nb is None, "illformed-pattern-accepted", bad)
         fresh, msg = NodeMatcher.from_pattern(text)
         require(fresh is not None, "wellformed-pattern-rejected", f"recompilation of {text!r}: {msg}")
         for node, exp_ok, exp_caps in res_for_p:
